@@ -305,7 +305,9 @@ func Alternatives(name string) []cty.Value {
 	case ty == cty.Number:
 		out = []cty.Value{n(7), cty.NumberFloatVal(2.5), n(0), n(1)}
 	case ty == cty.String:
-		out = []cty.Value{s("b"), s("0"), s("false"), s("a")}
+		// the last one starts with a combining mark: concatenated after a
+		// letter it composes with that letter under NFC normalisation
+		out = []cty.Value{s("b"), s("0"), s("false"), s("a"), s("\u0301z")}
 	case ty == cty.Bool:
 		out = []cty.Value{cty.True, cty.False}
 	case name == "nl":
